@@ -2,7 +2,7 @@
 (***************************************************************************)
 (* Conformance of the real PLSSDesc with the marker-walk model             *)
 (* (PlssWalk.tla).  One record per TLC-emitted terminal state:             *)
-(*  {"id", "model": {lay, fell, comps: [{tr, sec, toksec, marks}],         *)
+(*  {"id", "model": {lay, fell, comps: [{tr, sec, toksec, first, marks}],  *)
 (*                   unused: [[marker]], eflags: [kind]},                  *)
 (*   "seccount": [per token index: how many section numbers it names],     *)
 (*   "obs": {exc, lay, tracts: [{tr, sec, marks}], unused: [[marker]],     *)
@@ -20,7 +20,7 @@ TraceSpec == TraceInit /\ [][Consume]_l
 Rec == Trace[l - 1]
 
 \* one tract per section number of the component's section token (one for an error section / a fallback)
-Copies(r, c) == IF r.model.fell \/ c.toksec = 0 THEN 1 ELSE r.seccount[c.toksec]
+Copies(r, c) == IF c.first \/ c.toksec = 0 THEN 1 ELSE r.seccount[c.toksec]
 RECURSIVE Expand(_, _)
 Expand(r, j) == IF j > Len(r.model.comps) THEN <<>>
                 ELSE LET c == r.model.comps[j]
